@@ -225,6 +225,12 @@ func (rl *Shell) updatePosRunHints() {
 	hint := core.ResetPostRunIterations(rl.Iterations)
 	register, selected := rl.Buffers.IsSelected()
 
+	// A numeric argument only applies to the command following it (and to the
+	// motion of a pending operator, eg. 2dw): drop it if this command ignored it.
+	if !rl.Iterations.IsSet() && rl.Keymap.Local() != keymap.ViOpp {
+		rl.Iterations.Reset()
+	}
+
 	if hint == "" && !selected && !rl.Macros.Recording() {
 		rl.Hint.ResetPersist()
 		return
